@@ -6,6 +6,7 @@
 //!   sweep   per shape: <budget> value assignments x (all orders for <=5 units, 24 random beyond)
 //!           x mutations of the rendered lines x help requests at every position
 //!   random  per shape: <budget> argument vectors drawn from literals / numbers / arbitrary bytes
+//!   align   multi-byte text at every alignment / length 80..=160 around the 128-byte cause buffer
 //!   static  help text content per level + observations
 //!   miri    small time-boxed mix of the above
 mod model;
@@ -108,6 +109,7 @@ fn entries() -> Vec<Entry> {
         entry!(shapes::S14OptSubWithOpts),
         entry!(shapes::S15BoolsOnly),
         entry!(shapes::S16Normalised),
+        entry!(shapes::S17Echo),
         // inner levels on their own as well
         entry!(shapes::Arg13),
         entry!(shapes::Other13),
@@ -413,7 +415,8 @@ fn exp_name(g: &Grammar, args: &[Vec<u8>]) -> &'static str {
     }
 }
 
-const MUTATIONS: [&str; 13] = [
+const MUTATIONS: [&str; 14] = [
+    "aligned-multibyte-arg",
     "drop",
     "duplicate-arg",
     "duplicate-pair",
@@ -555,6 +558,16 @@ fn mutate(kind: &str, line: &[Vec<u8>], g: &Grammar, r: &mut Rng, big: bool) -> 
             }
             v.insert(at(r, n + 1), a);
         }
+        "aligned-multibyte-arg" => {
+            // multi-byte text at a random alignment / length around the 128-byte cause buffer,
+            // inserted or put in place of an existing argument
+            let t = model::aligned_text(model::PADS[r.below(model::PADS.len() as u64) as usize], model::FILLERS[r.below(model::FILLERS.len() as u64) as usize].1, 80 + r.below(81) as usize);
+            if n > 0 && r.chance(1, 2) {
+                v[at(r, n)] = t;
+            } else {
+                v.insert(at(r, n + 1), t);
+            }
+        }
         "help" => {
             let h = *r.pick(&["-h", "--help"]);
             v.insert(at(r, n + 1), h.as_bytes().to_vec());
@@ -669,6 +682,7 @@ fn random_vectors(st: &mut St, e: &Entry, r: &mut Rng, n: u64, big: bool) {
                     vec![*r.pick(&[b'-', b'a', 0xFFu8, 0xC3]); k]
                 }
                 13 if big => vec![b'w'; 10 * 1024],
+                14 => model::aligned_text(model::PADS[r.below(model::PADS.len() as u64) as usize], model::FILLERS[r.below(model::FILLERS.len() as u64) as usize].1, 80 + r.below(81) as usize),
                 _ => r.pick(&["word", "x", "héllo", "-", "--", "a b"]).as_bytes().to_vec(),
             };
             line.push(a);
@@ -677,6 +691,73 @@ fn random_vectors(st: &mut St, e: &Entry, r: &mut Rng, n: u64, big: bool) {
         let o = judge(st, e, &line, "random-vector", None);
         st.bump("random_vector_parses");
         st.distinct(&[e.name, "random", en, o]);
+    }
+}
+
+/// Alignment sweep: every cause that quotes user text (unrecognized argument, conversion error
+/// that echoes its input) is produced with multi-byte text at every offset relative to the
+/// 128-byte cause buffer: ASCII pads of 0..=4 bytes x fillers of 2/3/4-byte characters and
+/// mixtures x total lengths `lens`, placed alone, after / before a valid line, as the value of
+/// every valued option, and in place of a number.
+fn align_sweep(st: &mut St, e: &Entry, r: &mut Rng, lens: &[usize], shard: u64, nshards: u64) {
+    let cfg = GenCfg { big: false };
+    let rd = model::gen(&e.g, r, &cfg);
+    let mut base = model::flatten(&rd.units, &model::identity(rd.units.len()));
+    base.extend(rd.tail.iter().cloned());
+    let valued: Vec<Vec<u8>> = e
+        .g
+        .opts
+        .iter()
+        .filter(|o| o.kind != model::Kind::Flag)
+        .map(|o| o.lits[0].as_bytes().to_vec())
+        .collect();
+    let num_at = base
+        .iter()
+        .position(|a| model::parse_int(a, i128::MIN, i128::MAX).is_some());
+    let mut k = 0u64;
+    for &total in lens {
+        for pad in model::PADS {
+            for (fname, widths) in model::FILLERS {
+                k += 1;
+                if k % nshards != shard % nshards {
+                    continue;
+                }
+                if st.past() {
+                    return;
+                }
+                let t = model::aligned_text(pad, widths, total);
+                let mut lines: Vec<(&str, Vec<Vec<u8>>)> = vec![("alone", vec![t.clone()])];
+                let mut l = base.clone();
+                l.push(t.clone());
+                lines.push(("after-valid-line", l));
+                // enough copies to run past every free positional of the level
+                let mut l = base.clone();
+                l.extend([t.clone(), t.clone(), t.clone(), t.clone()]);
+                lines.push(("four-times-after-valid-line", l));
+                lines.push(("four-times-alone", vec![t.clone(), t.clone(), t.clone(), t.clone()]));
+                let mut l = vec![t.clone()];
+                l.extend(base.iter().cloned());
+                lines.push(("before-valid-line", l));
+                for lit in &valued {
+                    lines.push(("as-option-value", vec![lit.clone(), t.clone()]));
+                    let mut l = base.clone();
+                    l.push(lit.clone());
+                    l.push(t.clone());
+                    lines.push(("as-option-value-after-valid-line", l));
+                }
+                if let Some(i) = num_at {
+                    let mut l = base.clone();
+                    l[i] = t.clone();
+                    lines.push(("in-place-of-number", l));
+                }
+                for (place, line) in lines {
+                    let en = exp_name(&e.g, &line);
+                    let o = judge(st, e, &line, &format!("align/{place}"), None);
+                    st.bump("alignment_sweep_parses");
+                    st.distinct(&[e.name, "align", fname, place, en, o]);
+                }
+            }
+        }
     }
 }
 
@@ -766,6 +847,13 @@ fn main() {
                 random_vectors(&mut st, e, &mut rr, a.budget, true);
             }
         }
+        "align" => {
+            let lens: Vec<usize> = (80..=160).collect();
+            for e in &ents {
+                let mut rr = r.fork(4);
+                align_sweep(&mut st, e, &mut rr, &lens, shard, nshards);
+            }
+        }
         "static" => static_checks(&mut st, &ents),
         "miri" => {
             // shapes are dealt round-robin to the shards; each gets an equal share of the time
@@ -784,6 +872,9 @@ fn main() {
                 let mut rr = r.fork(3);
                 sweep_shape(&mut st, e, &mut rr, a.budget, &cfg, true);
                 random_vectors(&mut st, e, &mut rr, a.budget * 4, false);
+                // a thin slice of the alignment sweep (lengths around the buffer edge)
+                let lens: Vec<usize> = vec![96 + (shard as usize % 8), 128 + (shard as usize % 5)];
+                align_sweep(&mut st, e, &mut rr, &lens, a.seed % 27, 27);
             }
             if shard == 0 {
                 st.deadline = None;
